@@ -295,6 +295,17 @@ func numRestores(c Case) int {
 	return n
 }
 
+func clashAny(keys []Key) bool {
+	names := map[string]bool{}
+	for _, key := range keys {
+		if names[key.Name] {
+			return true
+		}
+		names[key.Name] = true
+	}
+	return false
+}
+
 func Scenarios() []Case {
 	k := func(db uint32, name, kind string) Key { return Key{db, name, kind} }
 	rdbs := [][]Key{
@@ -304,6 +315,8 @@ func Scenarios() []Case {
 		{k(0, "pa", "string"), k(0, "s1", "lua"), k(1, "pb", "string"), k(1, "s2", "lua")},
 		{k(0, "pa", "string"), k(1, "pa", "list"), k(2, "pa", "hash"), k(1, "qb", "string")},
 		{k(0, "pa", "string"), k(1, "pb", "list"), k(0, "pc", "hash"), k(2, "pd", "string"), k(1, "pe", "string"), k(0, "s1", "lua")},
+		// filtered entries (key whitelist p) sitting exactly where a worker has to switch database
+		{k(1, "qa", "string"), k(1, "pb", "string"), k(2, "qc", "list"), k(2, "pd", "hash"), k(2, "pe", "string")},
 	}
 	var out []Case
 	for _, keys := range rdbs {
@@ -322,6 +335,9 @@ func Scenarios() []Case {
 			}
 			out = append(out, Case{Keys: keys, Workers: w, TargetDB: -1, DBFilter: 2, KeyExists: "none"})
 			out = append(out, Case{Keys: keys, Workers: w, TargetDB: -1, KeyFilter: 1, KeyExists: "none"})
+			if !clashAny(keys) {
+				out = append(out, Case{Keys: keys, Workers: w, TargetDB: 3, KeyFilter: 1, KeyExists: "none"})
+			}
 			out = append(out, Case{Keys: keys, Workers: w, TargetDB: -1, Lua: true, KeyExists: "none"})
 			for _, pol := range []string{"none", "rewrite", "ignore"} {
 				out = append(out, Case{Keys: keys, Workers: w, TargetDB: -1, KeyExists: pol, Pre: true})
